@@ -272,4 +272,94 @@ example : ∃ c1, sB.poll [] 1000 false (sendToken 3 5) = .ok c1 ∧ c1.tx = non
   handover_receiver_starts sB [] 1000 (sendToken 3 5) [] (some 5) 0 3 5 true sB_inv rfl rfl
     (by intro l hl; cases hl; decide) (by decide) (.inl (by decide)) (receiveAll_token 3 5) rfl (by decide) (.inr rfl)
 
+/-! ### Part 2 — the sender of the token -/
+
+/-- The stamp after handing a token telegram (3 characters) to the PHY at `now` is its predicted end
+`now + 33 bit` (`tx_marks_busy`). -/
+theorem token_pass_stamp (s : Station) (apps : Apps) (now : Int) (phyTx : Bool) (rx : Bytes) (c' : Ctx) (da sa : UInt8)
+    (h : s.poll apps now phyTx rx = .ok c') (hb : c'.tx = some (sendToken da sa)) :
+    c'.s.lastBusActivity = some (now + (c'.s.p.bits 33 : Nat)) := by
+  have := tx_marks_busy s apps now phyTx rx c' _ h hb
+  rw [this]
+  have h3 : (sendToken da sa).length = 3 := rfl
+  rw [h3]
+
+/-- **Part 2, `handover_sender_waits`.**  Station A supervises its token pass: `CheckTokenPass att`, stamp
+`te` (the predicted end of its token telegram, `token_pass_stamp`).  For ONE poll at ANY time `now`, with
+ANY PHY flag and ANY receive buffer, that returns regularly:
+(a) at `now ≤ te` (own transmission still on the wire) the poll is a complete no-op — nothing is
+    transmitted, nothing consumed, the station is unchanged;
+(b) at `now ≤ te + Tslot` nothing is transmitted (the slot has not expired: no retry);
+(c) at a poll that finds more bytes in the receive buffer than already accounted for
+    (`|rx| > pending_bytes`) nothing is transmitted either — WHATEVER the time — and (PHY idle, `now > te`)
+    the stamp moves to `now`;
+and in cases (b), (c) with the PHY idle and `now > te`: no application is called, and either no complete
+telegram has arrived — then the station is unchanged except for the registered activity
+(`check_for_bus_activity`), in particular it is still in `CheckTokenPass att` with the same ring view —
+or a telegram was heard: supervision ends, the stamp is `now`. -/
+theorem handover_sender_waits (s : Station) (apps : Apps) (now : Int) (phy : Bool) (rx : Bytes) (c' : Ctx)
+    (att : Attempt) (te : Int) (hon : s.online = true) (hst : s.st = .checkTokenPass att)
+    (hl : s.lastBusActivity = some te) (h : s.poll apps now phy rx = .ok c') :
+    (now ≤ te → c' = { s := s, apps := apps, rx := rx }) ∧
+    ((now ≤ te + (s.p.slotTime : Nat) ∨ s.pendingBytes < rx.length) → c'.tx = none) ∧
+    (te < now → phy = false → (now ≤ te + (s.p.slotTime : Nat) ∨ s.pendingBytes < rx.length) →
+      c'.calls = [] ∧ (s.pendingBytes < rx.length → c'.s.lastBusActivity = some now) ∧
+      ((c'.s = checkBusActivity s now rx.length ∧ ∃ rx' ret, receiveAll rx = .done rx' [] ret ∧ c'.rx = rx') ∨
+       (c'.s.lastBusActivity = some now ∧ (∀ a, c'.s.st ≠ .checkTokenPass a) ∧
+          ∃ rx' x rest ret, receiveAll rx = .done rx' (x :: rest) ret))) := by
+  have ha : now ≤ te → c' = { s := s, apps := apps, rx := rx } := by
+    intro hle
+    rw [poll_ongoing s apps now phy rx hon (by rw [hst]; simp) (by rw [hst]; simp) te hl hle] at h
+    cases h; rfl
+  have hc : te < now → phy = false → (now ≤ te + (s.p.slotTime : Nat) ∨ s.pendingBytes < rx.length) →
+      c'.tx = none ∧ c'.calls = [] ∧ (s.pendingBytes < rx.length → c'.s.lastBusActivity = some now) ∧
+      ((c'.s = checkBusActivity s now rx.length ∧ ∃ rx' ret, receiveAll rx = .done rx' [] ret ∧ c'.rx = rx') ∨
+       (c'.s.lastBusActivity = some now ∧ (∀ a, c'.s.st ≠ .checkTokenPass a) ∧
+          ∃ rx' x rest ret, receiveAll rx = .done rx' (x :: rest) ret)) := by
+    intro hlt hphy hne
+    subst hphy
+    obtain ⟨h1, h2, -, -, -, h6⟩ := check_poll_waits s apps now rx c' att te hon hst hl hlt hne.symm h
+    refine ⟨h1, h2, fun hn => ?_, h6⟩
+    rcases h6 with ⟨hs, -⟩ | ⟨hs, -⟩
+    · rw [hs, checkBA_last s now rx.length (by intro l' hl'; rw [hl] at hl'; cases hl'; exact hlt), if_pos hn]
+    · exact hs
+  refine ⟨ha, fun hne => ?_, fun hlt hphy hne => (hc hlt hphy hne).2⟩
+  by_cases hle : now ≤ te
+  · rw [ha hle]
+  · cases phy with
+    | true =>
+      cases htx : c'.tx with
+      | none => rfl
+      | some b => exact absurd (tx_needs_idle s apps now true rx c' h (by rw [htx]; simp)).1 (by simp)
+    | false => exact (hc (by omega) rfl hne).1
+
+/-- **Part 2, run form (`sender_never_interrupts`).**  Under the station invariant, for ANY sequence of
+polls `(time, receive buffer)` (PHY idle) that is `Dense` w.r.t. the slot time — every poll is not later
+than the stamp, or finds a new byte pending (stamp := poll time), or is not later than stamp + slot
+time — every poll returns regularly, transmits nothing and calls no application, as long as the station
+is in `CheckTokenPass att`; it leaves that state only by hearing a complete telegram.  `Dense` is a
+condition on the INPUTS only (poll times and buffer lengths, starting from `te` and the pending count);
+part 3 derives it from the arrival times of the successor's characters. -/
+theorem sender_never_interrupts (s : Station) (apps : Apps) (att : Attempt) (te : Int) (hinv : Inv s apps)
+    (hon : s.online = true) (hst : s.st = .checkTokenPass att) (hl : s.lastBusActivity = some te)
+    (polls : List (Int × Bytes)) (hd : Dense s.p.slotTime te s.pendingBytes polls) :
+    SupervisesQuietly att s apps polls :=
+  sender_run att s.p polls s apps te hinv hon hst hl rfl hd
+
+/-! Non-vacuity of part 2: station 3 supervising (stamp 0, `Tslot` = 400 µs); the successor's token
+trickles in: nothing at 100 µs, one byte at 300 µs, two at 650 µs (more than a slot time after the
+stamp 0, but a new byte is pending), still two at 900 µs (≤ 650 + 400). -/
+def sA : Station :=
+  { (Station.new pEx) with online := true, st := .checkTokenPass .first, lastBusActivity := some 0 }
+
+theorem sA_inv : Inv sA [] := by
+  have h := inv_new pEx [] (by decide) (by decide) (by intro s hs; cases hs)
+  exact ⟨h.addr, h.hsa, h.ring, fun ho => by simp [sA] at ho, h.gap, fun a ha => by simp [sA] at ha,
+    fun a ha => by simp [sA] at ha, h.app, fun a d ha => by simp [sA] at ha, h.scripts, by simp [sA]⟩
+
+example : SupervisesQuietly .first sA [] [(100, []), (300, [0xDC]), (650, [0xDC, 5]), (900, [0xDC, 5])] :=
+  sender_never_interrupts sA [] .first 0 sA_inv rfl rfl rfl _ (by
+    show Dense 400 0 0 _
+    simp [Dense])
+
 end PV.C01
